@@ -39,7 +39,7 @@ INSTANCES = {
 }
 
 
-def _expected(model, family, rec, params, decorated, Ktrain, dyn=None, indep=None):
+def _expected(model, family, rec, params, decorated, Ktrain, dyn=None, indep=None, gem_doc=None):
     Xb, Ab = rec["X"], rec["A"]
     if indep is not None:
         Ab = indep(np.asarray(Xb, dtype=float))       # the affinity the estimator's OWN hyperparameters describe, computed here from the batch
@@ -49,7 +49,7 @@ def _expected(model, family, rec, params, decorated, Ktrain, dyn=None, indep=Non
         sel = dyn["sel"]
         Ab = np.asarray(Xb)[:, sel] @ np.asarray(Xb)[:, sel].T
     P = model._infer(Xb, retain=False)
-    gem = model.get_gemini()
+    gem = model.get_gemini() if gem_doc is None else gem_doc       # gem_doc: the objective the DOCUMENTATION names (not what the model resolved)
     _, g = gem(P.copy(), Ab, return_grad=True)
     g = np.array(g, dtype=float)
     if decorated:
@@ -96,8 +96,15 @@ def train_case(case):
     X = seams.tiny_data(n, d, seed + data_id)
     kw = dict(solver=solver, max_iter=max_iter, learning_rate=lr, random_state=seed)
     indep = None
+    gem_doc = None
     if family not in ("RIM", "KernelRIM"):
         kw["gemini"] = gemini
+        if gemini == "documented_none":
+            # gemini=None: "If None, the GEMINI will be the MMD OvA" (linear kernel) in the documentation of every generic estimator
+            import gemclus.gemini as Gm
+            kw["gemini"] = None
+            gem_doc = Gm.MMDGEMINI(ovo=False, kernel="linear")
+            indep = lambda Xb_: Xb_ @ Xb_.T      # noqa: E731
         if isinstance(gemini, str) and gemini.startswith("inst:"):
             import gemclus.gemini as Gm
             cls_, own_, sib_, indep = INSTANCES[gemini]
@@ -164,7 +171,7 @@ def train_case(case):
         state["step"] += 1
         if dyn is not None:
             dyn["since"] += 1
-        exp, skipped, g, P = _expected(model, family, rec, params, decorated, Ktrain, dyn, indep)
+        exp, skipped, g, P = _expected(model, family, rec, params, decorated, Ktrain, dyn, indep, gem_doc)
         state["skipped"] += skipped
         if len(grads) != len(params):
             state["v"].append(violation("wrong_number_of_directions", f"{len(grads)} directions for {len(params)} parameters", **where))
@@ -292,6 +299,10 @@ def explorers(tier, seed):
                 for bs in ([None] if family == "CategoricalModel" else [2, None]):
                     for data_id in ((0, 20) if family in ("SparseLinearModel", "SparseMLPModel") and solver == "adam" else (0,)):
                         cases.append((family, gem, solver, bs, False, data_id, 3, 0.1, seed, route))
+    for family in M.GENERIC_GEMINI:
+        for bs in ([None] if family == "CategoricalModel" else [2, None]):
+            for solver_ in ("adam", "sgd"):
+                cases.append((family, "documented_none", solver_, bs, False, 0, 3, 0.1, seed))
     for family in ("LinearModel", "MLPModel", "SparseLinearModel", "CategoricalModel", "Douglas"):
         for inst in INSTANCES:
             for bs in ([None] if family == "CategoricalModel" else [2, None]):
